@@ -37,6 +37,8 @@ type Obl struct {
 	Model   string
 	Output  string
 	SmtFile string
+	noSplit bool
+	Decided bool // decided by the generator itself (structural obligation): not sent to a solver
 	Parts  []string // independent conjuncts of Goal (one per return site): each is discharged by its own query
 	IsPart bool
 	OptionalCover bool // call-site cover: unsat is only an error if the call site itself is reachable
@@ -82,6 +84,7 @@ type Frame struct {
 	contract *FuncContract // contract of fn if it is the unit's top function
 	calls   map[string]int // callee name -> count (for ret(callee #k))
 	callRes map[string][]Val
+	callArgs map[string]map[string]Val // arguments of the k-th call to a callee under contract, by parameter name
 }
 
 type State struct {
@@ -134,6 +137,8 @@ type Unit struct {
 	nextOverride string
 	wantCallCovers bool
 	curCallArgs []ssa.Value
+	setofMemo map[string]string
+	preOnly bool // executing a `go` statement: a callee under contract is only checked for its precondition
 	selfRef string // identity of the function value when a closure is verified standalone
 	modsDone bool
 	oblNames map[string]int
